@@ -62,6 +62,12 @@ def make_param(eng, name, spec):
     raise ValueError('unknown param spec %r' % (spec,))
 
 
+def z3_unescape(t):
+    """z3 prints non-printable characters as \\u{XX}: turn them back into characters"""
+    import re
+    return re.sub(r'\\u\{([0-9a-fA-F]+)\}', lambda m: chr(int(m.group(1), 16)), t)
+
+
 def model_value(model, v, depth=0):
     """Concrete python value of a (possibly symbolic) value under a z3 model."""
     if isinstance(v, Sym):
@@ -73,7 +79,7 @@ def model_value(model, v, depth=0):
         if v.t == REAL:
             return Fraction(z.numerator_as_long(), z.denominator_as_long())
         if v.t == STR:
-            return z.as_string()
+            return z3_unescape(z.as_string())
     if isinstance(v, tuple):
         return tuple(model_value(model, x) for x in v)
     if isinstance(v, list):
@@ -694,6 +700,8 @@ def call_real(c, inputs):
             if isinstance(r, types.GeneratorType):
                 r = list(r)
             return ('return', r)
+        except NameError as e:
+            raise RuntimeError('harness uses a /verif helper that has no native counterpart: %s' % e)
         except Exception as e:   # noqa
             return ('raise', type(e).__name__, str(e))
     fn = import_real(c.relpath, c.qualname)
